@@ -463,3 +463,84 @@ def selftest():
     if len(rotations24()) != 24: errs.append("rotations")
     if not general_position(generic_points(8)): errs.append("generic points not in general position")
     return errs
+
+
+# ------------------------------------------------------------------------------------------ planar convex lattice polygons
+_POLY_MEMO = {}
+
+
+def _hull_ccw(points):
+    """strict convex hull (monotone chain, integer predicates): counter-clockwise, collinear points dropped"""
+    P = sorted(points)
+    def o(a, b, c):
+        return (b[0] - a[0]) * (c[1] - a[1]) - (b[1] - a[1]) * (c[0] - a[0])
+    lo = []
+    for p in P:
+        while len(lo) >= 2 and o(lo[-2], lo[-1], p) <= 0:
+            lo.pop()
+        lo.append(p)
+    up = []
+    for p in reversed(P):
+        while len(up) >= 2 and o(up[-2], up[-1], p) <= 0:
+            up.pop()
+        up.append(p)
+    return lo[:-1] + up[:-1]
+
+
+def _poly_canon(cyc):
+    best = None
+    for sym in range(8):
+        q = []
+        for x, y in cyc:
+            if sym & 1: x = -x
+            if sym & 2: y = -y
+            if sym & 4: x, y = y, x
+            q.append((x, y))
+        mx, my = min(p[0] for p in q), min(p[1] for p in q)
+        q = tuple(sorted((x - mx, y - my) for x, y in q))
+        if best is None or q < best:
+            best = q
+    return best
+
+
+def convex_lattice_polygons(G, k):
+    """EVERY strictly convex k-gon with its corners in {0..G-1}^2, one representative per class under the 8 symmetries
+    of the square and translations: counter-clockwise cycles starting at the lexicographically smallest corner, sorted."""
+    if (G, k) not in _POLY_MEMO:
+        pts = [(x, y) for x in range(G) for y in range(G)]
+        classes = {}
+        for sub in itertools.combinations(pts, k):
+            h = _hull_ccw(sub)
+            if len(h) != k:
+                continue
+            c = _poly_canon(h)
+            if c not in classes or tuple(h) < classes[c]:
+                classes[c] = tuple(h)
+        _POLY_MEMO[(G, k)] = sorted(classes.values())
+    return _POLY_MEMO[(G, k)]
+
+
+def polygon_shape(cyc):
+    """coarse exact shape class of a planar convex polygon (integer corners)"""
+    k = len(cyc)
+    side = [(cyc[(i + 1) % k][0] - cyc[i][0], cyc[(i + 1) % k][1] - cyc[i][1]) for i in range(k)]
+    par = lambda a, b: a[0] * b[1] - a[1] * b[0] == 0
+    sq = lambda a: a[0] * a[0] + a[1] * a[1]
+    if k == 4:
+        p02, p13 = par(side[0], side[2]), par(side[1], side[3])
+        if p02 and p13:
+            return "parallelogram"
+        if p02 or p13:
+            return "trapezoid"
+        if (sq(side[0]) == sq(side[3]) and sq(side[1]) == sq(side[2])) or (sq(side[0]) == sq(side[1]) and sq(side[2]) == sq(side[3])):
+            return "kite"
+        return "irregular"
+    if k % 2 == 0 and all(side[i] == (-side[i + k // 2][0], -side[i + k // 2][1]) for i in range(k // 2)):
+        return "centrally_symmetric"
+    return "irregular"
+
+
+def shoelace2(cyc):
+    """twice the signed area of a planar lattice polygon (integers) - self-test partner of polygon_area_vector2"""
+    k = len(cyc)
+    return sum(cyc[i][0] * cyc[(i + 1) % k][1] - cyc[(i + 1) % k][0] * cyc[i][1] for i in range(k))
